@@ -5,10 +5,14 @@ cd "$(dirname "$0")/.."
 for d in seeded/*/; do
   n=$(basename $d)
   props=$(python3 -c "import json;print(' '.join(json.load(open('$d/meta.json'))['detected_by_quick_checks']))")
-  if ! git -C /repo apply --check $PWD/$d/patch.diff 2>/dev/null; then
-    echo "$n: PATCH-DOES-NOT-APPLY (tree has moved on)"; continue
+  if git -C /repo apply --check $PWD/$d/patch.diff 2>/dev/null; then
+    git -C /repo apply $PWD/$d/patch.diff
+  elif git -C /repo apply --3way $PWD/$d/patch.diff >/dev/null 2>&1 && ! git -C /repo diff --cached --name-only --diff-filter=U | grep -q .; then
+    git -C /repo reset -q   # keep the merged change in the working tree only
+  else
+    git -C /repo reset -q --hard
+    echo "$n: PATCH-DOES-NOT-APPLY (tree has moved on; the change was confirmed against the tree of its time)"; continue
   fi
-  git -C /repo apply $PWD/$d/patch.diff
   res=""
   for p in $props; do
     ./bin/vcheck $p --tier quick >/tmp/.reseed.out 2>&1; code=$?
